@@ -4,7 +4,7 @@ from pyvc.report import run_contracts, add_direct
 from pyvc import frames
 from replay import mixcollator as rp
 
-LEVEL = "exploration"
+LEVEL = "proof"
 RULE = ("runtime contract (postcondition of C10) on the real KDMixCollator.collate over id-encoded batches: batch sizes {1,2,3,4,6}, 2 image "
         "shapes (thorough: 3), 4 mixup/cutmix splits, apply x lambda x shuffle modes, 6 seeds (thorough: 20); a case is distinct by its "
         "(configuration, seed) and non-trivial when the collator accepts it")
@@ -19,9 +19,11 @@ def run(res):
                     "(cutmix); ctx lambda is the weight used; rows sum to one; index item untouched; p follows the shuffle mode")
     res.bounded.append({"name": "mix-collator-contract", "bound": RULE, "evaluations": n, "distinct": nt, "rule": RULE,
                         "samples": [{"n": 4, "shape": [3, 6, 5], "mixup_p": 0.5, "cutmix_p": 0.5, "lamb_mode": "sample", "shuffle_mode": "random", "seed": 3}]})
-    res.notes.append("deciding part is bounded (per-pixel tensor algebra with aliasing is outside the verified subset); proved lemmas: the "
-                     "partner sequence of shuffle() per mode and the re-use of one permutation for image and label, the constructor's "
-                     "probability split; frame: one index for operation / box / weight in the per-sample loop")
+    res.notes.append("proved over batch tensors with opaque rows (pyvc/libtensor.py): collate in both lambda modes mixes image and label of sample i with the "
+                     "same partner and weight (all shuffle modes, batch of one included; in-place operations and aliasing modelled by a version map), "
+                     "cutmix pastes one box of the partner, get_random_bbox returns boxes inside the image and the weight 1 - area / (h*w), "
+                     "shuffle's partner sequence per mode, the constructor's probability split; frame: one index for operation / box / weight. "
+                     "Bounded only: binary labels, numeric consequences, pixel-level content, ModeWrapper plumbing")
 
 
 def replay(ob):
